@@ -235,4 +235,37 @@ theorem rpdac_iterator_models_match_source_text :
     Generated.body_RPDACIter_ctor = SourceText.body_RPDACIter_ctor ∧
     Generated.body_RPDACIter_next = SourceText.body_RPDACIter_next := ⟨rfl, rfl, rfl, rfl⟩
 
+/-- **No match, no result** — the property's second sentence, spelled out: when no member begins with the
+pattern, `locatePrefix` returns the limits `(0, 0)` (NORESULT) and `extractPrefix` produces no string — NULL for
+PFC and RPFC, an iterator that is empty from the start for RPDAC — and none of them reads outside the dictionary
+(every model result is `some`). For every bucket size, every storing / representing grammar. -/
+theorem no_match_yields_nothing {S : List Str} (hv : validDict S = true) (b : Nat)
+    {dR : RPFC.D} (hR : RPFC.Stores S dR) {dD : RPDAC.D} (hD : RPDAC.Represents dD S) (hlen : S.length < 2 ^ 64)
+    (q : Str) (hq : PFC.nulFree q) (hne : q ≠ []) (hno : ∀ s ∈ S, isPrefix q s = false) :
+    PFC.locatePrefix (PFC.build b S) q = some (0, 0) ∧ PFC.extractPrefix (PFC.build b S) q = some none ∧
+    RPFC.locatePrefix dR q = some (0, 0) ∧ RPFC.extractPrefix dR q = some none ∧
+    RPDAC.extractPrefix dD (RPDAC.bytesNat q) = some [] := by
+  obtain ⟨hne', hn, hs, _⟩ := PFC.validDict_facts hv
+  have hfil : S.filter (isPrefix q) = [] := by
+    rw [List.filter_eq_nil_iff]
+    intro a ha
+    rw [hno a ha]; simp
+  have hnoidx : ∀ lo hi, PFC.PrefixChar S q lo hi → lo = 0 ∧ hi = 0 := by
+    intro lo hi h
+    rcases h with ⟨h1, h2, _⟩ | ⟨h1, h2, h3, hiff⟩
+    · exact ⟨h1, h2⟩
+    · have hlt : lo - 1 < S.length := by omega
+      have := (hiff (lo - 1) hlt).mpr (by omega)
+      rw [hno _ (List.getElem_mem hlt)] at this
+      cases this
+  obtain ⟨lo, hi, hloc, hchar⟩ := PFC.locatePrefix_build b S q hne' hn hs hq
+  obtain ⟨e1, e2⟩ := hnoidx lo hi hchar
+  obtain ⟨lo', hi', hloc', hchar'⟩ := RPFC.locatePrefix_stores hR hne' hn hs q hq
+  obtain ⟨e1', e2'⟩ := hnoidx lo' hi' hchar'
+  subst e1 e2 e1' e2'
+  refine ⟨hloc, ?_, hloc', ?_, ?_⟩
+  · rw [PFC.extractPrefix_build b S q hne' hn hs hq, hfil]; rfl
+  · rw [RPFC.extractPrefix_stores hR hne' hn hs q hq, hfil]; rfl
+  · rw [RPDAC.extractPrefix_represents dD S hD hn hs hlen q hq hne, hfil]; rfl
+
 end CSD.Props.C04
